@@ -181,19 +181,8 @@ def check_left(run, S, name, spec, kw):
     others = [l for g_, l in ls if l['k'] != 'ret']
     okp = all(l['k'] == 'panic' and (l['why'].startswith('Overflow') or l['why'] in ('DivisionByZero', 'RemainderByZero')) for l in others)
     is_float = prim in ('f32', 'f64')
-    if not run.ob(key + ':shape', len(rets) == 1 and okp and (not is_float or not others), rule='K6 scalar-left', expected='one Return; only overflow / division-by-zero panics (none for floats)',
+    if not run.ob(key + ':shape', 1 <= len(rets) <= 8 and okp and (not is_float or not others), rule='K6 scalar-left', expected='Return leaves; only overflow / division-by-zero panics (none for floats)',
                   found='%d Return, others %s' % (len(rets), sorted({l.get('why', l['k']) for l in others})), where=where):
-        return
-    leaves = []
-
-    def walk(v):
-        if 'a' in v:
-            for x in v['a']:
-                walk(x)
-        else:
-            leaves.append(v)
-    walk(rets[0]['v'])
-    if not run.ob(key + ':arity', len(leaves) == nleaves, rule='K6 scalar-left', expected=nleaves, found=len(leaves), where=where):
         return
     # atoms of the right operand in declaration order
     arg = r['args'][1]['v']
@@ -209,12 +198,47 @@ def check_left(run, S, name, spec, kw):
             comp_ids.append(v.get('t'))
     walk2(arg)
     a0 = r['args'][0]['v'].get('t')
-    bad = []
-    for i, (lv, cid) in enumerate(zip(leaves, comp_ids)):
-        t = S.terms[lv['t']] if 't' in lv else None
-        if not (t and t[0] == 'a' and t[1] == op and t[2] == [a0, cid]):
-            bad.append((i, S.showval(lv)[:60]))
-    run.ob(key + ':operands', not bad, rule='K6 scalar-left: primitive op(scalar, component_i) with the scalar as LEFT operand, in position i', expected='%s(a0, component_i) for every i' % op, found=bad[:3] if bad else 'all', where=where)
+    from core import _leaf_equalities
+    multi = len(rets) > 1
+    for li, (guards, leaf) in enumerate([(g_, l) for g_, l in ls if l['k'] == 'ret']):
+        sfx = ':path%d' % li if multi else ''
+        leaves = []
+
+        def walk(v):
+            if 'a' in v:
+                for x in v['a']:
+                    walk(x)
+            else:
+                leaves.append(v)
+        walk(leaf['v'])
+        if not run.ob(key + ':arity' + sfx, len(leaves) == nleaves, rule='K6 scalar-left', expected=nleaves, found=len(leaves), where=where):
+            continue
+        # a special-case path (`if scalar == 1 { return v }`): the scalar is known exactly there, and 1 * x = x exactly
+        known = None
+        if multi:
+            eqt = _leaf_equalities(S, guards).get('a0')
+            if eqt is not None and S.terms[eqt][0] in ('i', 'f'):
+                known = eqt
+        one_known = False
+        if known is not None:
+            kt = S.terms[known]
+            import struct
+            one_known = (kt[0] == 'i' and kt[1] == '1') or (kt[0] == 'f' and struct.unpack('<d', struct.pack('<Q', int(kt[1])))[0] == 1.0)
+        bad = []
+        for i, (lv, cid) in enumerate(zip(leaves, comp_ids)):
+            t = S.terms[lv['t']] if 't' in lv else None
+            ok_ = bool(t and t[0] == 'a' and t[1] == op and (t[2] == [a0, cid] or (known is not None and t[2] == [known, cid])))
+            if not ok_ and t and t[0] == 'a' and t[1] == 'ite' and len(t[2]) == 3 and op == 'mul':
+                # a merged fast path `if scalar == 1 { component } else { scalar * component }`: 1 * x = x exactly
+                c_, th_, el_ = S.terms[t[2][0]], t[2][1], S.terms[t[2][2]]
+                is_one = lambda z: S.terms[z][0] == 'i' and S.terms[z][1] == '1' or (S.terms[z][0] == 'f' and Conv(S).el(z).is_const() and Conv(S).el(z).const() == 1)
+                cond_ok = c_[0] == 'a' and c_[1] == 'eq' and len(c_[2]) == 2 and ((c_[2][0] == a0 and is_one(c_[2][1])) or (c_[2][1] == a0 and is_one(c_[2][0])))
+                ok_ = bool(cond_ok and th_ == cid and el_[0] == 'a' and el_[1] == op and el_[2] == [a0, cid])
+            if not ok_ and one_known and op == 'mul' and lv.get('t') == cid:
+                ok_ = True
+            if not ok_:
+                bad.append((i, S.showval(lv)[:60]))
+        run.ob(key + ':operands' + sfx, not bad, rule='K6 scalar-left: primitive op(scalar, component_i) with the scalar as LEFT operand, in position i', expected='%s(a0, component_i) for every i' % op, found=bad[:3] if bad else 'all', where=where)
 
 
 def check_foldroot(run, S, name, spec, kw):
